@@ -132,6 +132,8 @@ impl Iterator for ChoiceIterator<'_> {
 
     fn next(&mut self) -> Option<Self::Item> {
         loop {
+            #[cfg(regexml_verif)]
+            crate::verif::tick(3);
             // take values from current iter as long as we can
             if let Some(current_iter) = &mut self.current_iter {
                 let next = current_iter.next();
